@@ -50,7 +50,7 @@ ASSUMPTIONS = [
     "asyncio task scheduling, cancellation delivery and the finally-block of merge_generators (cancel/gather/aclose) are not modelled; they are exercised only by the real runs under the virtual-time loop",
     "the debounce arithmetic (extend_window, max_window_seconds) is abstracted: the timer may fire at any point of the action list (a superset of the real timings)",
     "keys are modelled as natural numbers with <=; Python compares arbitrary keys with <",
-    "items of `inner` are assumed different from the in-band sentinel string \"__COMPLETE__\" (an inner item equal to it would be taken for the marker)",
+    "the flush marker is a module-private object recognised by identity (C29_source_shape: Gen.markerInBand = false), which the model renders as the Tok.val / Tok.marker split; a stream that deliberately yields that private object is outside the domain",
     "a consumer that abandons the generator early (aclose) is outside the property and not modelled",
     "the iteration order of the `done` set returned by asyncio.wait is a parameter of the `batch` action (all orders are covered by the theorems; the real runs exhibit only those CPython produces)",
 ]
@@ -339,7 +339,8 @@ def run_merge_case(iu: Any, case: dict) -> dict:
 
 
 def run_dsp_case(iu: Any, case: dict) -> dict:
-    """case: {kind:'dsp', script:[step..], hops:[int..], max_ticks:int}"""
+    """case: {kind:'dsp', script:[step..], hops:[int..], max_ticks:int} or
+    {kind:'nested', scripts:[[step..]..], ...} (inner = a real merge of scripted sources; monitors only)"""
     with _Probe(iu) as pr:
         log = pr.log
         iu.merge_generators = pr.probed_merge
@@ -347,8 +348,24 @@ def run_dsp_case(iu: Any, case: dict) -> dict:
         res: dict = {"log": log, "out": out, "exc": None, "hang": None}
         hops = list(case.get("hops") or [0])
 
+        async def tap(agen: Any):
+            # what reaches debounced_sorted_prefix is the arrival order of its `inner`
+            try:
+                async for x in agen:
+                    log.append(("P", 0, x))
+                    yield x
+            finally:
+                await agen.aclose()
+
         async def main() -> None:
-            inner = scripted_source(log, 0, case["script"])
+            if case["kind"] == "nested":
+                # the way the repository uses it: sorted prefix over a merge of several log streams
+                sub: list = []
+                gens = [scripted_source(sub, i, sc) for i, sc in enumerate(case["scripts"])]
+                res["sub"] = sub
+                inner = tap(pr.real_merge(*gens))
+            else:
+                inner = scripted_source(log, 0, case["script"])
             it = iu.debounced_sorted_prefix(inner, key=lambda x: x.key, debounce_seconds=W_TICKS * UNIT,
                                             max_window_seconds=case.get("max_ticks", 8) * UNIT)
             k = 0
@@ -373,6 +390,53 @@ def run_dsp_case(iu: Any, case: dict) -> dict:
         except Hang as h:
             res["hang"] = str(h)
         return res
+
+
+def run_str_case(iu: Any, case: dict) -> dict:
+    """case: {kind:'str', items:[str..], gaps:[ticks..]} - plain string items (monitors only): an item
+    may be equal to whatever in-band marker the implementation uses."""
+    with _Probe(iu):
+        out: list = []
+        res: dict = {"out": out, "exc": None, "hang": None}
+        gaps = list(case.get("gaps") or [0])
+
+        async def inner():
+            for j, x in enumerate(case["items"]):
+                g = gaps[j % len(gaps)]
+                if g:
+                    await asyncio.sleep(g * UNIT)
+                yield x
+
+        async def main() -> None:
+            try:
+                async for x in iu.debounced_sorted_prefix(inner(), key=lambda x: x, debounce_seconds=W_TICKS * UNIT,
+                                                          max_window_seconds=case.get("max_ticks", 8) * UNIT):
+                    out.append(x)
+            except Exception as e:
+                res["exc"] = e
+
+        try:
+            run_loop(main, int(case.get("salt", 0)))
+        except Hang as h:
+            res["hang"] = str(h)
+        return res
+
+
+def monitor_str(case: dict, res: dict) -> list[Violation]:
+    if res["hang"]:
+        return [Violation("C29/dsp_no_termination", f"debounced_sorted_prefix did not finish on a finite source ({res['hang']})", case)]
+    if res["exc"] is not None:
+        return [Violation("C29/dsp_spurious_error", f"debounced_sorted_prefix raised {res['exc']!r} on string items {case['items']}", case)]
+    if sorted(res["out"]) != sorted(case["items"]):
+        lost = list(case["items"])
+        for x in res["out"]:
+            if x in lost:
+                lost.remove(x)
+        if lost and all(x in case.get("marker_values", ["__COMPLETE__"]) for x in lost):
+            return [Violation("C29/dsp_item_equal_to_marker_lost",
+                              f"inner yielded {case['items']}, output is {res['out']}: an item equal to the in-band marker was swallowed", case)]
+        return [Violation("C29/dsp_str_not_exactly_once", f"inner yielded {case['items']}, output is {res['out']}", case)]
+    return []
 
 
 # --------------------------------------------------------------------------
@@ -447,12 +511,16 @@ def merge_trace(case: dict, res: dict) -> tuple[list[str], list[str]]:
     return ops, exp
 
 
+def _is_marker(x: Any) -> bool:
+    """In the merged stream inside debounced_sorted_prefix everything that is not one of the
+    scripted items is the flush marker (a string in older sources, a private object now)."""
+    return not isinstance(x, Item)
+
+
 def _dtok(x: Any) -> str:
     if isinstance(x, Item):
         return f"0:{x.key}:{x.uid}"
-    if isinstance(x, str):
-        return "1:marker" if x == "__COMPLETE__" else f"?:{x!r}"
-    return f"?:{x!r}"
+    return "1:marker"
 
 
 def _ditems(xs: list) -> str:
@@ -486,7 +554,7 @@ def dsp_trace(case: dict, res: dict) -> tuple[list[str], list[str]]:
                 order = []
                 n_end = sum(1 for d in ev[1] if d[0] == "end")
                 deb_end = n_end == 2 or (n_end == 1 and not inner_end_uncollected)
-                if any(d[0] == "item" and d[1] == "__COMPLETE__" for d in ev[1]) and not marked:
+                if any(d[0] == "item" and _is_marker(d[1]) for d in ev[1]) and not marked:
                     marked = True
                     ops.append("mark")  # Debouncer.aiter yielded the marker some time before this wake-up
                     exp.append(f"ok emit=- yield=- phase={phase}")
@@ -496,7 +564,7 @@ def dsp_trace(case: dict, res: dict) -> tuple[list[str], list[str]]:
                 inner_end_taken = False
                 for d in ev[1]:
                     if d[0] == "item":
-                        order.append(0 if isinstance(d[1], Item) else (1 if d[1] == "__COMPLETE__" else 99))
+                        order.append(0 if isinstance(d[1], Item) else 1)
                     elif d[0] == "err":
                         order.append(0 if isinstance(d[1], SrcError) else 99)
                     elif d[0] == "end":
@@ -602,7 +670,9 @@ def monitor_dsp(case: dict, res: dict) -> list[Violation]:
         return [Violation("C29/dsp_no_termination", f"debounced_sorted_prefix did not finish on a finite source ({res['hang']})", case)]
     log, out, exc = res["log"], res["out"], res["exc"]
     arrival = _produced(log, 0)
-    raised = [ev[2] for ev in log if ev[0] == "E"]
+    raised = [ev[2] for ev in log + res.get("sub", []) if ev[0] == "E"]
+    scripts = case["scripts"] if case["kind"] == "nested" else [case["script"]]
+    n_items = sum(1 for sc in scripts for st in sc if st[0] == "item")
     for x in out:
         if not isinstance(x, Item):
             return [Violation("C29/dsp_foreign_item", f"yielded {x!r}, which inner did not produce", case)]
@@ -612,7 +682,7 @@ def monitor_dsp(case: dict, res: dict) -> list[Violation]:
     if exc is None:
         if raised:
             return [Violation("C29/dsp_error_swallowed", f"inner raised {raised[0]!r} but debounced_sorted_prefix returned normally", case)]
-        if sorted(ids) != sorted(x.uid for x in arrival) or len(arrival) != sum(1 for st in case["script"] if st[0] == "item"):
+        if sorted(ids) != sorted(x.uid for x in arrival) or len(arrival) != n_items:
             return [Violation("C29/dsp_lost_item", f"inner produced {arrival}, output is {out}", case)]
     elif not any(exc is r for r in raised):
         return [Violation("C29/dsp_spurious_error" if not raised else "C29/dsp_wrong_error",
@@ -621,12 +691,12 @@ def monitor_dsp(case: dict, res: dict) -> list[Violation]:
     # real merged stream); the output must be: nothing before that point, then the burst in key order,
     # then every later item in arrival order.
     stream = [ev[1] for ev in log if ev[0] == "G"]
-    mk = next((j for j, x in enumerate(stream) if isinstance(x, str)), None)
+    mk = next((j for j, x in enumerate(stream) if _is_marker(x)), None)
     consumed = [x for x in stream if isinstance(x, Item)]
     if not _is_prefix(consumed, arrival):
         return [Violation("C29/dsp_stream_mismatch", f"consumer loop received {consumed}, inner produced {arrival}", case)]
     first_o = next((j for j, ev in enumerate(log) if ev[0] == "O"), None)
-    mk_ev = next((j for j, ev in enumerate(log) if ev[0] == "G" and isinstance(ev[1], str)), None)
+    mk_ev = next((j for j, ev in enumerate(log) if ev[0] == "G" and _is_marker(ev[1])), None)
     if first_o is not None and (mk_ev is None or first_o < mk_ev):
         return [Violation("C29/dsp_later_before_burst",
                           f"arrival {arrival}, output {out}: {out[0]} was yielded before the buffered burst was flushed", case)]
@@ -685,6 +755,35 @@ def gen_dsp_case(rng) -> dict:
             "hops": [rng.randint(0, 2) for _ in range(rng.randint(1, 3))], "salt": rng.randrange(32)}
 
 
+def gen_nested_case(rng) -> dict:
+    return {"kind": "nested", "scripts": [gen_script(rng, "dsp", 3) for _ in range(rng.choice([2, 2, 3]))],
+            "max_ticks": rng.choice([W_TICKS, 2 * W_TICKS, 3 * W_TICKS]),
+            "hops": [rng.randint(0, 2) for _ in range(rng.randint(1, 3))], "salt": rng.randrange(32)}
+
+
+def marker_literals() -> list[str]:
+    """string values an in-band marker could have: the historical one and whatever the current source compares with"""
+    from ..gen import iterutils as gen
+
+    lits = ["__COMPLETE__"]
+    try:
+        m = gen.extract().get("markerCmp") or ""
+        if m.startswith("lit:") and m[4:] not in lits:
+            lits.append(m[4:])
+    except Exception:
+        pass
+    return lits
+
+
+def gen_str_case(rng, lits: list[str]) -> dict:
+    pool = ["a", "b", "c", "__complete__", "", "zz"] + lits
+    items = [rng.choice(pool) for _ in range(rng.randint(0, 6))]
+    if rng.random() < 0.5 and items:
+        items[rng.randrange(len(items))] = rng.choice(lits)
+    return {"kind": "str", "items": items, "gaps": [rng.choice([0, 0, 1, W_TICKS, 2 * W_TICKS]) for _ in range(rng.randint(1, 3))],
+            "max_ticks": rng.choice([W_TICKS, 2 * W_TICKS]), "salt": rng.randrange(32), "marker_values": lits}
+
+
 def load_corpus() -> list[dict]:
     p = os.path.join(VERIF, "harness", "corpus", "c29_cases.json")
     return json.load(open(p))["cases"]
@@ -712,6 +811,11 @@ def run(env: Env) -> Outcome:
     for _ in range(n):
         cases.append(gen_merge_case(env.rng))
         cases.append(gen_dsp_case(env.rng))
+    for _ in range(n // 5):
+        cases.append(gen_nested_case(env.rng))
+    lits = marker_literals()
+    for _ in range(n // 10):
+        cases.append(gen_str_case(env.rng, lits))
 
     all_ops: list[str] = []
     all_exp: list[str] = []
@@ -727,6 +831,18 @@ def run(env: Env) -> Outcome:
             out.count("merge:" + ("hang" if res["hang"] else "error" if res["exc"] is not None else "ok"))
             big = max((len(ev[1]) for ev in res["log"] if ev[0] == "B"), default=0)
             out.count(f"merge:max_batch={min(big, 4)}")
+        elif case["kind"] == "str":
+            res = run_str_case(iu, case)
+            vs = monitor_str(case, res)
+            ops, exp = [], []
+            yielded = res["out"]
+            out.count("str:" + ("with_marker_value" if any(x in case.get("marker_values", ["__COMPLETE__"]) for x in case["items"]) else "plain"))
+        elif case["kind"] == "nested":
+            res = run_dsp_case(iu, case)
+            vs = monitor_dsp(case, res)
+            ops, exp = [], []
+            yielded = res["out"]
+            out.count("nested:" + ("hang" if res["hang"] else "error" if res["exc"] is not None else "ok"))
         else:
             res = run_dsp_case(iu, case)
             vs = monitor_dsp(case, res)
@@ -735,7 +851,7 @@ def run(env: Env) -> Outcome:
             out.count("dsp:" + ("hang" if res["hang"] else "error" if res["exc"] is not None else "ok"))
             log = res["log"]
             fire = next((j for j, ev in enumerate(log) if ev[0] == "FIRE"), None)
-            mk = next((j for j, ev in enumerate(log) if ev[0] == "G" and ev[1] == "__COMPLETE__"), None)
+            mk = next((j for j, ev in enumerate(log) if ev[0] == "G" and _is_marker(ev[1])), None)
             if fire is not None and mk is not None:
                 between = sum(1 for ev in log[fire:mk] if ev[0] == "G")
                 out.count("dsp:item_between_fire_and_marker" if between else "dsp:no_item_between_fire_and_marker")
@@ -743,7 +859,7 @@ def run(env: Env) -> Outcome:
             burst = 0
             for ev in log:
                 if ev[0] == "G":
-                    if ev[1] == "__COMPLETE__":
+                    if _is_marker(ev[1]):
                         break
                     burst += 1
             out.count("dsp:burst=" + ("0" if burst == 0 else "1" if burst == 1 else "2+") + (",later" if nb > burst else ",nolater"))
